@@ -127,6 +127,8 @@ type Explorer struct {
 	Stats          *Stats
 	Violations     []Violation
 	vioSeen        map[string]int
+	firstVio       time.Time     // when the first violation outside the harness's known predicates was recorded
+	StopAfterVio   time.Duration // >0: stop exploring this long after that violation (the verdict no longer depends on the rest)
 	MaxPaths       int64
 	MaxVioPerLabel int
 	Deadline       time.Time
@@ -177,6 +179,16 @@ func (e *Explorer) done() {
 	e.mu.Unlock()
 }
 
+// vioBudgetSpent: a violation was recorded at least StopAfterVio ago.
+func (e *Explorer) vioBudgetSpent() bool {
+	if e.StopAfterVio <= 0 {
+		return false
+	}
+	e.mu.Lock()
+	defer e.mu.Unlock()
+	return !e.firstVio.IsZero() && time.Since(e.firstVio) > e.StopAfterVio
+}
+
 func (e *Explorer) truncate(why string) {
 	e.mu.Lock()
 	if e.Truncated == "" {
@@ -191,6 +203,9 @@ func (e *Explorer) addViolation(v Violation) {
 	e.mu.Lock()
 	defer e.mu.Unlock()
 	key := v.Label + "|" + v.Site + "|" + v.Known
+	if v.Known == "" && e.firstVio.IsZero() {
+		e.firstVio = time.Now()
+	}
 	e.vioSeen[key]++
 	if e.vioSeen[key] <= e.MaxVioPerLabel {
 		e.Violations = append(e.Violations, v)
@@ -695,9 +710,11 @@ type RunConfig struct {
 	Fuel     int64
 	MaxPaths int64
 	Timeout  time.Duration
-	Solver   string
-	SolverMs int
-	Debug    bool
+	// StopAfterVio > 0: exploration stops this long after the first violation outside the known predicates
+	StopAfterVio time.Duration
+	Solver       string
+	SolverMs     int
+	Debug        bool
 }
 
 // matchPanicPattern: pattern = "<msg substring>@<site1>,<site2>,..." (either part may
